@@ -34,6 +34,7 @@ const (
 	kAny
 	kOption
 	kTypeParam
+	kOptionPtr // fp.Option[*int]: Some(nil) is a defined value
 	nKinds
 	// embedded struct fields (not drawn at random by index; added explicitly)
 	kEmbedPriv  fieldKind = 100 // embedded struct whose fields are all private
@@ -43,7 +44,7 @@ const (
 
 var kindType = map[fieldKind]string{
 	kInt: "int", kString: "string", kBool: "bool", kNamed: "MyInt", kPtr: "*int", kSlice: "[]int", kArray: "[2]int",
-	kMap: "map[string]int", kFunc: "func()", kChan: "chan int", kAny: "any", kOption: "fp.Option[int]", kTypeParam: "T",
+	kMap: "map[string]int", kFunc: "func()", kChan: "chan int", kAny: "any", kOption: "fp.Option[int]", kTypeParam: "T", kOptionPtr: "fp.Option[*int]",
 	kEmbedPriv: "EmbP", kEmbedPub: "EmbQ", kEmbedEmpty: "EmbE",
 }
 
@@ -157,6 +158,8 @@ func mkExpr(f fieldSpec, tag string) string {
 		return "vhAny(" + n + ")"
 	case kOption:
 		return "vhOpt(" + n + ")"
+	case kOptionPtr:
+		return "vhOptP(" + n + ")"
 	case kEmbedPriv:
 		return "EmbP{p1: zz.Int(" + n + "+\".p1\"), p2: zz.Str(" + n + "+\".p2\", 1)}"
 	case kEmbedPub:
@@ -165,6 +168,15 @@ func mkExpr(f fieldSpec, tag string) string {
 		return "EmbE{}"
 	}
 	return "nil"
+}
+
+// somePayload: the value handed to WithSomeF / builder SomeF (a possibly nil pointer for Option[*int]); it is
+// a format string with the two %d of the original (variable index, name index)
+func somePayload(f fieldSpec) string {
+	if f.kind == kOptionPtr {
+		return "vhPtr(\"some%[2]d\")"
+	}
+	return "zz.Int(\"some%[2]d\")"
 }
 
 func eqExpr(f fieldSpec, a, b string) string {
@@ -177,6 +189,8 @@ func eqExpr(f fieldSpec, a, b string) string {
 		return fmt.Sprintf("((%s == nil) == (%s == nil))", a, b)
 	case kOption:
 		return fmt.Sprintf("vhEqOpt(%s, %s)", a, b)
+	case kOptionPtr:
+		return fmt.Sprintf("vhEqOptP(%s, %s)", a, b)
 	}
 	return fmt.Sprintf("(%s == %s)", a, b)
 }
@@ -219,6 +233,20 @@ func vhAny(n string) any {
 		return zz.Bool(n + ".b")
 	}
 	return nil
+}
+
+func vhOptP(n string) fp.Option[*int] {
+	if zz.Bool(n + ".some") {
+		return fp.Some(vhPtr(n + ".p"))
+	}
+	return fp.None[*int]()
+}
+
+func vhEqOptP(a, b fp.Option[*int]) bool {
+	if a.IsDefined() != b.IsDefined() {
+		return false
+	}
+	return a.IsEmpty() || a.Get() == b.Get()
 }
 
 func vhOpt(n string) fp.Option[int] {
@@ -302,8 +330,8 @@ func (s structSpec) harness(pkg string) string {
 		b.WriteString(fmt.Sprintf("\tzz.Assert(%s, %q)\n", eqExpr(f, fmt.Sprintf("y%d.%s", i, f.name), v), "With"+capName(f.name)+" replaces the field"))
 		b.WriteString(fmt.Sprintf("\tzz.Assert(vhEq%s(y%d, x, %q), %q)\n", s.name, i, f.name, "With"+capName(f.name)+" changes nothing else"))
 		b.WriteString(fmt.Sprintf("\tzz.Assert(vhEq%s(x, x0, \"\"), %q)\n", s.name, "With"+capName(f.name)+" leaves the receiver unchanged"))
-		if f.kind == kOption {
-			b.WriteString(fmt.Sprintf("\tw%d := zz.Int(\"some%d\")\n\ts%d := x.WithSome%s(w%d)\n\tzz.Assert(s%d.%s.IsDefined() && s%d.%s.Get() == w%d && vhEq%s(s%d, x, %q), %q)\n",
+		if f.kind == kOption || f.kind == kOptionPtr {
+			b.WriteString(fmt.Sprintf("\tw%d := "+somePayload(f)+"\n\ts%d := x.WithSome%s(w%d)\n\tzz.Assert(s%d.%s.IsDefined() && s%d.%s.Get() == w%d && vhEq%s(s%d, x, %q), %q)\n",
 				i, i, i, capName(f.name), i, i, f.name, i, f.name, i, s.name, i, f.name, "WithSome"+capName(f.name)))
 			b.WriteString(fmt.Sprintf("\tn%d := x.WithNone%s()\n\tzz.Assert(n%d.%s.IsEmpty() && vhEq%s(n%d, x, %q), %q)\n", i, capName(f.name), i, f.name, s.name, i, f.name, "WithNone"+capName(f.name)))
 		}
@@ -330,8 +358,8 @@ func (s structSpec) harness(pkg string) string {
 		}
 	}
 	for i, f := range s.fields {
-		if f.private() && f.kind == kOption {
-			b.WriteString(fmt.Sprintf("\tw%d := zz.Int(\"some%d\")\n\tbs%d := x.Builder().Some%s(w%d).Build()\n\tzz.Assert(bs%d.%s.IsDefined() && bs%d.%s.Get() == w%d && vhEq%s(bs%d, x, %q), %q)\n",
+		if f.private() && (f.kind == kOption || f.kind == kOptionPtr) {
+			b.WriteString(fmt.Sprintf("\tw%d := "+somePayload(f)+"\n\tbs%d := x.Builder().Some%s(w%d).Build()\n\tzz.Assert(bs%d.%s.IsDefined() && bs%d.%s.Get() == w%d && vhEq%s(bs%d, x, %q), %q)\n",
 				i, i, i, capName(f.name), i, i, f.name, i, f.name, i, s.name, i, f.name, "builder Some"+capName(f.name)))
 			b.WriteString(fmt.Sprintf("\tbn%d := x.Builder().None%s().Build()\n\tzz.Assert(bn%d.%s.IsEmpty() && vhEq%s(bn%d, x, %q), %q)\n", i, capName(f.name), i, f.name, s.name, i, f.name, "builder None"+capName(f.name)))
 		}
@@ -399,7 +427,7 @@ func mkProgram(pkg string, structs []structSpec, desc string) Program {
 }
 
 func fixedPrograms() [][]structSpec {
-	all := []fieldSpec{{"a", kInt, ""}, {"b", kString, ""}, {"Pub", kBool, ""}, {"_hid", kInt, ""}, {"opt", kOption, ""}, {"ptr", kPtr, ""}, {"sl", kSlice, ""}, {"arr", kArray, ""}, {"m", kMap, ""}, {"fn", kFunc, ""}, {"ch", kChan, ""}, {"an", kAny, ""}, {"nm", kNamed, ""}}
+	all := []fieldSpec{{"a", kInt, ""}, {"b", kString, ""}, {"Pub", kBool, ""}, {"_hid", kInt, ""}, {"opt", kOption, ""}, {"optp", kOptionPtr, ""}, {"ptr", kPtr, ""}, {"sl", kSlice, ""}, {"arr", kArray, ""}, {"m", kMap, ""}, {"fn", kFunc, ""}, {"ch", kChan, ""}, {"an", kAny, ""}, {"nm", kNamed, ""}}
 	return [][]structSpec{
 		{{name: "One", fields: []fieldSpec{{"a", kInt, ""}}}},
 		{{name: "Two", fields: []fieldSpec{{"a", kInt, ""}, {"b", kString, ""}}}, {name: "Pubs", fields: []fieldSpec{{"A", kInt, ""}, {"b", kBool, ""}, {"C", kString, ""}}}},
